@@ -42,6 +42,12 @@ def shallow(e):
             yield e
             if e[0] == "call":
                 return
+            if e[0] == "agg" and len(e) > 3 and e[1] in ("Range", "RangeInclusive"):
+                # `start..end` that is iterated / searched: the end bounds the walk, it is not part of a value found in it
+                fs = dict(e[3])
+                if "start" in fs:
+                    yield from shallow(fs["start"])
+                return
         for x in e:
             if isinstance(x, tuple):
                 yield from shallow(x)
